@@ -182,7 +182,7 @@ func c07One(o *out, tmpl string, params map[string]interface{}, tag string) {
 	}
 	// inlining: whenever the bound values can be written as literals at the placeholders' positions (the inlined
 	// text is accepted), the result equals parsing the text with the literals written out
-	inl := tmpl
+	spell := map[string]string{}
 	okAll := true
 	for name, v := range params {
 		if name == "" || strings.HasPrefix(name, "$") || !strings.Contains(tmpl, "$"+name) {
@@ -193,9 +193,14 @@ func c07One(o *out, tmpl string, params map[string]interface{}, tag string) {
 			okAll = false
 			break
 		}
-		inl = inlineAt(inl, "$"+name, sp)
+		spell["$"+name] = sp
 	}
-	if okAll && !strings.Contains(inl, "$") {
+	// one pass over the template: an inlined value is never looked at again (it may itself look like a placeholder),
+	// and only where every textual occurrence is a placeholder token of its own (not part of a quoted identifier,
+	// a string, a comment or a regular expression)
+	inl, comparable := inlineAll(tmpl, spell)
+	okAll = okAll && comparable
+	if okAll && !hasPlaceholderToken(inl) {
 		st2, err2 := influxql.ParseStatement(inl)
 		if err2 != nil {
 			return // the value cannot be written at that position: no claim
@@ -241,6 +246,76 @@ func inlineAt(text, ph, sp string) string {
 		}
 		text = text[j:]
 	}
+}
+
+// hasPlaceholderToken: the plain lexer still finds a bound-parameter token
+func hasPlaceholderToken(text string) bool {
+	sc := influxql.NewScanner(strings.NewReader(text))
+	for i := 0; i < len(text)+2; i++ {
+		tok, _, _ := sc.Scan()
+		if tok == influxql.EOF {
+			return false
+		}
+		if tok == influxql.BOUNDPARAM {
+			return true
+		}
+	}
+	return false
+}
+
+func isWordByte(c byte) bool {
+	return c == '_' || c >= '0' && c <= '9' || c >= 'a' && c <= 'z' || c >= 'A' && c <= 'Z'
+}
+
+// inlineAll replaces, in one left-to-right pass, every whole-word occurrence of a placeholder by its spelling.
+// comparable = the occurrences are exactly the placeholder tokens the lexer sees, and none lies behind a '/'
+// (which may open a regular expression, whose content only the parser can tell).
+func inlineAll(text string, spell map[string]string) (string, bool) {
+	var b strings.Builder
+	occurrences := 0
+	comparable := true
+	i := 0
+	for i < len(text) {
+		if text[i] != '$' {
+			b.WriteByte(text[i])
+			i++
+			continue
+		}
+		j := i + 1
+		for j < len(text) && isWordByte(text[j]) {
+			j++
+		}
+		sp, ok := spell[text[i:j]]
+		if !ok {
+			b.WriteString(text[i:j])
+			i = j
+			continue
+		}
+		occurrences++
+		if strings.Contains(text[:i], "/") {
+			comparable = false
+		}
+		if i > 0 && wordyStart(sp) && (wordyEnd(text[:i]) || text[i-1] == '"') {
+			b.WriteByte(' ')
+		}
+		b.WriteString(sp)
+		if j < len(text) && wordyEnd(sp) && (wordyStart(text[j:]) || text[j] == '"') {
+			b.WriteByte(' ')
+		}
+		i = j
+	}
+	tokens := 0
+	sc := influxql.NewScanner(strings.NewReader(text))
+	for k := 0; k < len(text)+2; k++ {
+		tok, _, lit := sc.Scan()
+		if tok == influxql.EOF {
+			break
+		}
+		if _, ok := spell[lit]; ok && tok == influxql.BOUNDPARAM {
+			tokens++
+		}
+	}
+	return b.String(), comparable && tokens == occurrences
 }
 
 func errStr(err error) string {
